@@ -240,6 +240,7 @@ class KSKMConfig(FrozenBaseModel):
 
         if (
             "ksk_policy" in _config
+            and "ttl" in _config["ksk_policy"]
             and "request_policy" in _config
             and "dns_ttl" in _config["request_policy"]
             and int(_config["request_policy"]["dns_ttl"]) == 0
